@@ -38,6 +38,15 @@ def model_cases(p):
                 r = FL.flow_derivatives(data, which=c["which"], mode=c["mode"], spacing=c["spacing"])
                 out.append({"keys": list(r.keys()), "val": {kk: v.tolist() for kk, v in r.items()},
                             "shape": {kk: list(v.shape) for kk, v in r.items()}})
+            elif k == "flowop":
+                u = torch.tensor(c["u"], dtype=torch.float64)
+                v = torch.tensor(c["v"], dtype=torch.float64)
+                kw = dict(mode=c["mode"], spacing=c["spacing"])
+                perm = lambda t: t[0].permute(*range(1, t.ndim - 1), 0).tolist()  # (C, .., X) -> (.., X, C)
+                out.append({"det": FL.jacobian_det(u, add_identity=False, **kw)[0, 0].tolist(),
+                            "det_id": FL.jacobian_det(u, add_identity=True, **kw)[0, 0].tolist(),
+                            "div": FL.divergence(u, **kw)[0, 0].tolist(),
+                            "curl": perm(FL.curl(u, **kw)), "lie": perm(FL.lie_bracket(v, u, **kw))})
             elif k == "formula":
                 u = torch.tensor(c["u"], dtype=torch.float64)
                 v = torch.tensor(c["v"], dtype=torch.float64)
